@@ -25,6 +25,8 @@ def plan(tier, seed):
         cases.append({"kind": "hostile", "seed": seed * 1000211 + i, "n": 60})
     for i in range(8 if tier == "quick" else 100):
         cases.append({"kind": "badlist", "seed": seed * 1000231 + i, "n": 10})
+    if tier == "thorough":
+        cases.insert(0, {"kind": "suite"})  # the repository's own suite under the contracts (large molecules)
     return cases
 
 
@@ -189,7 +191,41 @@ def badlists(case):
     return {"viol": G.dedupe(viol), "cnt": dict(cnt), "nt": [], "sample": sample}
 
 
+def suite_under_contracts(case):
+    import glob
+    import json
+    import os
+    import shutil
+    import subprocess
+    import sys
+
+    from .. import env
+
+    out = os.path.join(env.WORK, f"plugin-{os.getpid()}")
+    shutil.rmtree(out, ignore_errors=True)
+    e = dict(os.environ, GBV_PLUGIN_OUT=out, PYTHONPATH=os.pathsep.join([env.VERIF, env.DEPS, env.REPO_SRC]), PYTHONDONTWRITEBYTECODE="1")
+    p = subprocess.run([sys.executable, "-m", "pytest", "-q", "-p", "no:cacheprovider", "-p", "gbv.pytest_plugin", "-n", "8", "--timeout=900", "tests"], cwd=env.REPO, env=e, capture_output=True, text=True)
+    cnt = collections.Counter()
+    viol = []
+    for f in glob.glob(os.path.join(out, "plugin-*.json")):
+        d = json.load(open(f))
+        for k, v in d["counters"].items():
+            cnt["suite." + k] += v
+        for v in d["violations"]:
+            if v["cls"].startswith(("c04.", "c05.", "c03.")):
+                viol.append(dict(v, label="repository suite under contracts"))
+    shutil.rmtree(out, ignore_errors=True)
+    cnt["suite_runs"] = 1
+    cnt["evaluations"] = cnt.get("suite.contract.attach_other.post", 0)
+    res = {"viol": G.dedupe(viol), "cnt": dict(cnt), "nt": [], "sample": {"suite_tail": p.stdout.strip().splitlines()[-1] if p.stdout.strip() else p.stderr[-200:]}}
+    if cnt.get("suite.contract.attach_other.post", 0) == 0:
+        res["inconclusive"] = "the repository suite ran without a single attach_other contract evaluation: " + (p.stdout + p.stderr)[-300:]
+    return res
+
+
 def run_case(case):
+    if case["kind"] == "suite":
+        return suite_under_contracts(case)
     if case["kind"] == "hostile":
         return hostile(case)
     if case["kind"] == "badlist":
